@@ -3,7 +3,7 @@
     [maxSize >= 1] (no bound on the number or the length of the keys). *)
 From Coq Require Import ZArith List Lia Bool.
 From Low Require Import Lib.MachInt Lib.Bits Lib.BitSeq Lib.Lex Lib.Bytes Lib.LexExtra_sig
-  Model.Sigbits Spec.SigbitsSpec Proofs.SigbitsFirstDiff Proofs.SigbitsShardChecker.
+  Model.Sigbits Spec.SigbitsSpec Spec.ShardRouteSpec Proofs.SigbitsFirstDiff Proofs.SigbitsShardChecker.
 Import ListNotations.
 Open Scope Z_scope.
 
@@ -106,6 +106,26 @@ Proof.
   induction l as [|k ks IH]; intros s Hs; [cbn in Hs; lia|].
   destruct s as [|s]; [reflexivity|]. cbn [skipn nth]. apply IH. cbn [length] in Hs. lia.
 Qed.
+
+(** a truncation of a string is not above the string, nor above anything the string is below *)
+Lemma c17_firstn_le : forall n (x : list Z), bytes_cmp (firstn n x) x <> Gt.
+Proof.
+  induction n as [|n IH]; intros x.
+  - destruct x; cbn; discriminate.
+  - destruct x as [|a x]; [cbn; discriminate|].
+    cbn [firstn]. unfold bytes_cmp. cbn [lex_cmp]. rewrite Z.compare_refl. apply IH.
+Qed.
+
+Lemma c17_firstn_lt n (x y : list Z) : bytes_cmp x y = Lt -> bytes_cmp (firstn n x) y = Lt.
+Proof.
+  intros H. destruct (bytes_cmp (firstn n x) x) eqn:E.
+  - apply (lex_cmp_eq Z.compare Z.compare_eq_iff) in E. now rewrite E.
+  - exact (lex_lt_trans Z.compare Z.compare_eq_iff Z_cmp_lt_trans _ _ _ E H).
+  - now apply c17_firstn_le in E.
+Qed.
+
+Lemma c17_bytes_cmp_antisym a b : bytes_cmp b a = CompOpp (bytes_cmp a b).
+Proof. apply lex_cmp_antisym. intros x y. apply Z.compare_antisym. Qed.
 
 (** * the keys, by position *)
 Section Shard.
@@ -352,6 +372,21 @@ Section Shard.
       repeat split; try assumption; lia.
   Qed.
 
+  Lemma chain_In : forall ts s e t, chain s e ts -> In t ts ->
+    (s <= tb t)%nat /\ (tb t < te t)%nat /\ (te t <= e)%nat.
+  Proof.
+    induction ts as [|t0 r IH]; intros s e t H Hin; [contradiction|].
+    cbn [chain] in H. destruct H as (A & B & C & D & E). pose proof (chain_le _ _ _ E) as Hle.
+    destruct Hin as [<-|Hin]; [rewrite A; lia|].
+    destruct (IH _ _ _ E Hin) as (E1 & E2 & E3). lia.
+  Qed.
+
+  (** every key of the range before a shard leaves that shard's prefix:
+      its common prefix with the shard's first key is shorter than the shard's prefix *)
+  Definition sep (s : nat) (ts : list triple) : Prop :=
+    Forall (fun t => forall i, (s <= i < tb t)%nat ->
+                     (length (lcp_bytes (K i) (K (tb t))) < tl t)%nat) ts.
+
   Lemma asc_cons2 a b t : asc (a :: b :: t) <-> bytes_cmp a b = Lt /\ asc (b :: t).
   Proof. reflexivity. Qed.
 
@@ -415,18 +450,18 @@ Section Shard.
     Hypothesis He : (e <= length keys)%nat.
     Hypothesis IHdfs : forall a b, (a < b)%nat -> (b <= e)%nat -> (b - a <= F)%nat -> forall st,
       exists ts, dfs keys fd maxSize F (Z.of_nat a) (Z.of_nat b) st = Some (app_st st ts) /\
-                 chain a b ts /\ Forall (fun t => (M a b <= tl t)%nat) ts /\ asc (map pref ts).
+                 chain a b ts /\ Forall (fun t => (M a b <= tl t)%nat) ts /\ asc (map pref ts) /\ sep a ts.
 
     Lemma dfs_each_ok : forall a ends, groups a ends -> (lam <= length (K a))%nat -> forall st,
       exists ts, dfs_each (dfs keys fd maxSize F) (map Z.of_nat ends) (Z.of_nat a) st = Some (app_st st ts) /\
                  chain a e ts /\ Forall (fun t => (lam <= tl t)%nat) ts /\
                  ((lam < length (K a))%nat -> Forall (fun t => (lam < tl t)%nat) ts) /\
-                 asc (map pref ts).
+                 asc (map pref ts) /\ sep a ts.
     Proof.
       induction 1 as [a Hae HF Hin|a i r Hai Hie HF Hin Hq Hg IH]; intros Hlam st.
       - cbn [map dfs_each].
-        destruct (IHdfs a e Hae ltac:(lia) HF st) as (ts & Hd & Hc & Hf & Ha).
-        rewrite Hd. exists ts. split; [reflexivity|]. split; [exact Hc|]. split; [|split; [|exact Ha]].
+        destruct (IHdfs a e Hae ltac:(lia) HF st) as (ts & Hd & Hc & Hf & Ha & Hs).
+        rewrite Hd. exists ts. split; [reflexivity|]. split; [exact Hc|]. split; [|split; [|split; [exact Ha|exact Hs]]].
         + eapply Forall_impl; [|exact Hf]. intros t Ht. cbn beta in Ht.
           assert (lam <= M a e)%nat; [|lia].
           apply mlen_ge; [exact Hlam|]. intros j Hj. specialize (Hin j ltac:(lia) ltac:(lia)). lia.
@@ -434,20 +469,32 @@ Section Shard.
           assert (lam < M a e)%nat; [|lia].
           apply mlen_gt; [exact Hlt|]. intros j Hj. apply Hin; lia.
       - cbn [map dfs_each].
-        destruct (IHdfs a (S i) ltac:(lia) ltac:(lia) HF st) as (ts1 & Hd1 & Hc1 & Hf1 & Ha1).
+        destruct (IHdfs a (S i) ltac:(lia) ltac:(lia) HF st) as (ts1 & Hd1 & Hc1 & Hf1 & Ha1 & Hs1).
         rewrite Hd1.
         assert (Hadj : bytes_cmp (K i) (K (S i)) = Lt) by (apply K_adj_lt; lia).
         assert (Hlen : (lam < length (K (S i)))%nat).
         { pose proof (lex_lt_length Z.compare Z.eqb Z_eqb_spec Z.compare_eq_iff _ _ Hadj) as Hl.
           fold lcp_bytes in Hl. fold (q i) in Hl. lia. }
-        destruct (IH ltac:(lia) (app_st st ts1)) as (ts2 & Hd2 & Hc2 & Hf2 & Hf2' & Ha2).
+        destruct (IH ltac:(lia) (app_st st ts1)) as (ts2 & Hd2 & Hc2 & Hf2 & Hf2' & Ha2 & Hs2).
         rewrite Hd2, app_st_app. exists (ts1 ++ ts2). split; [reflexivity|].
         specialize (Hf2' Hlen).
         assert (HM : (lam <= M a (S i))%nat).
         { apply mlen_ge; [exact Hlam|]. intros j Hj. specialize (Hin j ltac:(lia)). lia. }
         assert (HM' : (lam < length (K a))%nat -> (lam < M a (S i))%nat).
         { intros Hlt. apply mlen_gt; [exact Hlt|]. intros j Hj. apply Hin; lia. }
-        split; [eapply chain_app; eassumption|]. split; [|split].
+        split; [eapply chain_app; eassumption|]. split; [|split; [|split]].
+        4: { (* keys of the first group against the shards of the later groups *)
+          apply Forall_app. split; [exact Hs1|].
+          unfold sep in *. rewrite Forall_forall in *. intros t Ht i0 Hi0.
+          destruct (chain_In _ _ _ _ Hc2 Ht) as (T1 & T2 & T3).
+          destruct (Nat.lt_ge_cases i i0) as [Hgt|Hle]; [apply (Hs2 t Ht); lia|].
+          specialize (Hf2' t Ht). cbn beta in Hf2'.
+          destruct (lcp_range (tb t - i0 - 1) i0) as [_ Hlcp]; [lia|].
+          replace (S (i0 + (tb t - i0 - 1))) with (tb t) in Hlcp by lia.
+          rewrite Hlcp.
+          assert (mlen (S i0) (tb t - i0 - 1) (q i0) <= q i)%nat; [|lia].
+          destruct (Nat.eq_dec i0 i) as [E|E]; [rewrite E; apply mlen_le_acc|].
+          apply mlen_le_q. lia. }
         + apply Forall_app. split; [|exact Hf2].
           eapply Forall_impl; [|exact Hf1]. intros t Ht. cbn beta in Ht. lia.
         + intros Hlt. specialize (HM' Hlt). apply Forall_app. split; [|exact Hf2'].
@@ -494,14 +541,15 @@ Section Shard.
   (** ** the recursion *)
   Lemma dfs_ok : forall fuel s e, (s < e)%nat -> (e <= length keys)%nat -> (e - s <= fuel)%nat -> forall st,
     exists ts, dfs keys fd maxSize fuel (Z.of_nat s) (Z.of_nat e) st = Some (app_st st ts) /\
-               chain s e ts /\ Forall (fun t => (M s e <= tl t)%nat) ts /\ asc (map pref ts).
+               chain s e ts /\ Forall (fun t => (M s e <= tl t)%nat) ts /\ asc (map pref ts) /\ sep s ts.
   Proof.
     induction fuel as [|F IH]; intros s e Hse He Hf st; [lia|].
     cbn [dfs]. rewrite nthZ_keys by lia.
     destruct (Z.leb_spec (Z.of_nat e - Z.of_nat s) maxSize) as [Hsz|Hsz].
     - (* small enough: one shard *)
       rewrite idx_range_nat. unfold zlen. rewrite shard_min_ok by lia. fold (M s e).
-      exists [(s, e, M s e)]. split; [reflexivity|]. split; [|split; [|exact I]].
+      exists [(s, e, M s e)]. split; [reflexivity|]. split; [|split; [|split; [exact I|]]].
+      3: { constructor; [|constructor]. cbn [tb fst]. intros i Hi. lia. }
       + cbn [chain tb te tl fst snd]. repeat split; try lia.
       + constructor; [cbn [tl snd]; lia|constructor].
     - (* split *)
@@ -515,7 +563,7 @@ Section Shard.
             pose proof (mlen_le_q s (e - s - 1) (length (K s)) s ltac:(lia)). lia.
           + exists j. split; [lia|exact Hq]. }
       destruct (dfs_each_ok (M s e) e F He) with (a := s) (ends := split_ends (M s e) (seq s (e - s - 1)) ++ [e]) (st := st)
-        as (ts & Hd & Hc & Hfa & _ & Ha).
+        as (ts & Hd & Hc & Hfa & _ & Ha & Hs).
       + intros a b Hab Hbe HF st'. apply IH; lia.
       + exact Hg.
       + apply mlen_le_acc.
@@ -563,22 +611,68 @@ Section Shard.
     - exact (IH (te t) e E).
   Qed.
 
-  Lemma ShardByPrefix_ok : keys <> [] ->
-    exists L B, ShardByPrefix keys maxSize = Some (L, B) /\ shard_ok keys maxSize L B = true.
+  Lemma ShardByPrefix_triples : keys <> [] ->
+    exists ts, ShardByPrefix keys maxSize = Some (outL ts, outB 0 ts) /\
+               chain 0 (length keys) ts /\ asc (map pref ts) /\ sep 0 ts.
   Proof.
     intros Hne. unfold ShardByPrefix. rewrite (FirstDiffBits_exact keys Hne Hok). fold fd.
     assert (Hlen : (0 < length keys)%nat) by (destruct keys; [congruence|cbn [length]; lia]).
     replace (zlen fd + 1) with (Z.of_nat (length keys)) by (unfold zlen; rewrite fd_length; lia).
     destruct (dfs_ok (S (length keys)) 0 (length keys) Hlen (le_n _) ltac:(lia) ([], [0]))
-      as (ts & Hd & Hc & _ & Ha).
+      as (ts & Hd & Hc & _ & Ha & Hsep).
     change (Z.of_nat 0) with 0 in Hd. rewrite Hd.
-    exists (outL ts), (outB 0 ts). split; [reflexivity|].
-    unfold shard_ok.
+    exists ts. split; [reflexivity|]. repeat split; assumption.
+  Qed.
+
+  Lemma triples_shard_ok ts : chain 0 (length keys) ts -> asc (map pref ts) ->
+    shard_ok keys maxSize (outL ts) (outB 0 ts) = true.
+  Proof.
+    intros Hc Ha. unfold shard_ok.
     apply andb_true_iff; split; [apply andb_true_iff; split; [apply andb_true_iff; split|]|].
     - exact (bounds_chain ts 0%nat (length keys) Hc).
     - apply Z.eqb_eq. unfold zlen, outL, outB. cbn [length]. rewrite !map_length. lia.
     - exact (lcps_chain ts 0%nat (length keys) Hc (le_n _)).
     - apply strict_ascb_asc. rewrite (prefs_chain ts 0%nat (length keys) Hc). exact Ha.
+  Qed.
+
+  (** ** the prefixes as a routing table *)
+  Lemma outB_nth : forall ts s e j, chain s e ts -> (j < length ts)%nat ->
+    nth j (outB s ts) 0 = Z.of_nat (tb (nth j ts (0, 0, 0)%nat)).
+  Proof.
+    induction ts as [|t r IH]; intros s e j H Hj; [cbn in Hj; lia|].
+    cbn [chain] in H. destruct H as (A & B & C & D & E).
+    destruct j as [|j]; [cbn [outB nth]; now rewrite A|].
+    unfold outB. cbn [map]. change (nth (S j) (Z.of_nat s :: Z.of_nat (te t) :: map (fun t0 => Z.of_nat (te t0)) r) 0)
+      with (nth j (outB (te t) r) 0).
+    cbn [nth]. apply (IH (te t) e j E). cbn [length] in Hj. lia.
+  Qed.
+
+  Lemma triples_route ts : chain 0 (length keys) ts -> sep 0 ts ->
+    route_spec keys (outL ts) (outB 0 ts).
+  Proof.
+    intros Hc Hsep i j Hi Hj. unfold outL in Hj. rewrite map_length in Hj.
+    unfold shard_prefix. rewrite (outB_nth ts 0%nat (length keys) j Hc Hj).
+    unfold outL. rewrite (c17_map_nth _ (0, 0, 0)%nat) by exact Hj. cbn beta.
+    set (t := nth j ts (0, 0, 0)%nat). rewrite !Nat2Z.id.
+    assert (Ht : In t ts) by (apply nth_In; exact Hj).
+    destruct (chain_In _ _ _ _ Hc Ht) as (T1 & T2 & T3).
+    fold (K (tb t)). fold (K i).
+    destruct (Nat.lt_ge_cases i (tb t)) as [Hlt|Hge].
+    - (* a key before the shard is below the shard's prefix *)
+      unfold sep in Hsep. rewrite Forall_forall in Hsep. specialize (Hsep t Ht i ltac:(lia)).
+      destruct (lcp_range (tb t - i - 1) i) as [Hcmp _]; [lia|].
+      replace (S (i + (tb t - i - 1))) with (tb t) in Hcmp by lia.
+      assert (Hl : bytes_cmp (K i) (firstn (tl t) (K (tb t))) = Lt).
+      { rewrite <- (firstn_all (K i)) at 1.
+        apply (lex_trunc_lt Z.compare Z.eqb Z_eqb_spec Z.compare_eq_iff); [exact Hcmp|right; lia|exact Hsep]. }
+      split; [|lia]. intros Hn. exfalso. apply Hn.
+      rewrite c17_bytes_cmp_antisym. match goal with |- CompOpp ?c = Gt => replace c with Lt by (symmetry; exact Hl) end. reflexivity.
+    - (* a key of the shard or after it is not below the shard's prefix *)
+      split; [lia|]. intros _.
+      destruct (Nat.eq_dec i (tb t)) as [->|Hne]; [apply c17_firstn_le|].
+      destruct (lcp_range (i - tb t - 1) (tb t)) as [Hcmp _]; [lia|].
+      replace (S (tb t + (i - tb t - 1))) with i in Hcmp by lia.
+      pose proof (c17_firstn_lt (tl t) _ _ Hcmp) as Hl. intros Hg. apply (eq_trans (eq_sym Hl)) in Hg. discriminate.
   Qed.
 End Shard.
 
@@ -586,7 +680,23 @@ End Shard.
 Theorem ShardByPrefix_shard_ok keys maxSize :
   keys <> [] -> keys_ok keys -> strict_asc keys -> 1 <= maxSize ->
   exists L B, ShardByPrefix keys maxSize = Some (L, B) /\ shard_ok keys maxSize L B = true.
-Proof. intros Hne Hok Hasc Hms. exact (ShardByPrefix_ok keys Hok maxSize Hasc Hms Hne). Qed.
+Proof.
+  intros Hne Hok Hasc Hms.
+  destruct (ShardByPrefix_triples keys Hok maxSize Hasc Hms Hne) as (ts & H & Hc & Ha & _).
+  eexists _, _. split; [exact H|]. now apply triples_shard_ok.
+Qed.
+
+(** the prefixes route every key of the list to its own shard *)
+Theorem ShardByPrefix_route keys maxSize :
+  keys <> [] -> keys_ok keys -> strict_asc keys -> 1 <= maxSize ->
+  exists L B, ShardByPrefix keys maxSize = Some (L, B) /\ shard_spec keys maxSize L B /\ route_spec keys L B.
+Proof.
+  intros Hne Hok Hasc Hms.
+  destruct (ShardByPrefix_triples keys Hok maxSize Hasc Hms Hne) as (ts & H & Hc & Ha & Hs).
+  eexists _, _. split; [exact H|]. split.
+  - apply shard_ok_sound. now apply triples_shard_ok.
+  - now apply (triples_route keys maxSize Hasc).
+Qed.
 
 Theorem ShardByPrefix_correct keys maxSize :
   keys <> [] -> keys_ok keys -> strict_asc keys -> 1 <= maxSize ->
@@ -598,9 +708,6 @@ Proof.
 Qed.
 
 (** ** "strictly ascending, hence pairwise distinct" *)
-Definition shard_prefix (keys : list (list Z)) (L B : list Z) (j : nat) : list Z :=
-  firstn (Z.to_nat (nth j L 0)) (nth (Z.to_nat (nth j B 0)) keys []).
-
 Lemma shard_spec_prefixes_lt keys maxSize L B : shard_spec keys maxSize L B ->
   forall n i, (S (i + n) < length L)%nat ->
   bytes_cmp (shard_prefix keys L B i) (shard_prefix keys L B (S (i + n))) = Lt.
